@@ -226,6 +226,32 @@ func c03Equals(t *rapid.T, specs []*Spec) {
 			t.Fatalf("Field.Equals is not reflexive for %s", s.Render())
 		}
 	}
+	// error values that are related without being the same (one wraps the other, one is the other's group):
+	// under ONE key they are different fields in both directions, and each is delivered as what it is
+	for _, f := range fa {
+		if f.Type != zapcore.ErrorType {
+			continue
+		}
+		inner, ok := f.Interface.(error)
+		if !ok || inner == nil {
+			continue
+		}
+		var wrapTxt string
+		func() {
+			defer func() { _ = recover() }()
+			wrapTxt = inner.Error()
+		}()
+		for _, other := range []zapcore.Field{zap.NamedError(f.Key, fmt.Errorf("context: %w", inner)), zap.NamedError(f.Key, groupErr{"group", []error{inner}})} {
+			x, p1 := equalsNoPanic(f, other)
+			y, p2 := equalsNoPanic(other, f)
+			if p1 != nil || p2 != nil {
+				t.Fatalf("Field.Equals panicked (%v %v) for an error field and a field wrapping that error (%q)", p1, p2, clipS(wrapTxt))
+			}
+			if x != y || x {
+				t.Fatalf("an error field and a field whose error WRAPS it (key %q, %q): a.Equals(b)=%v b.Equals(a)=%v, want false both ways (they deliver different values)", f.Key, clipS(wrapTxt), x, y)
+			}
+		}
+	}
 	// symmetry on arbitrary pairs (different keys / types / values)
 	for i := range fa {
 		for j := range fa {
@@ -546,6 +572,7 @@ func TestKnownC03(t *testing.T) {
 func TestRegressC03(t *testing.T) {
 	c03ObjectValuesElements(t)
 	c03SharedErrorConcurrently(t)
+	c03TimeKeepsItsZone(t)
 	// F4: Equals on inline-marshaler / uncomparable Stringer fields must not panic
 	a := zap.Inline(zap.DictObject(zap.Int("a", 1)))
 	if eq, p := equalsNoPanic(a, a); p != nil || !eq {
@@ -651,6 +678,32 @@ func c03SharedErrorConcurrently(t *testing.T) {
 		causes, _ := enc.Fields["errorCauses"].([]interface{})
 		if enc.Fields["error"] != "flush failed" || len(causes) != 2 {
 			t.Fatalf("the %s of two goroutines encoding one error group at the same time received %v (want the message and both causes)", name, enc.Fields)
+		}
+	}
+}
+
+// A time field keeps the zone its time.Time had when the field was BUILT, whatever the process's local zone is by
+// the time the field is encoded (fields are kept: in a With context evaluated lazily, by buffering cores, in
+// variables): time.Local is replaced and restored around the construction.
+func c03TimeKeepsItsZone(t *testing.T) {
+	old := time.Local
+	defer func() { time.Local = old }()
+	for _, off := range []int{3600, -9 * 3600, 12*3600 + 45*60} {
+		zone := time.FixedZone("then-local", off)
+		time.Local = zone
+		tm := time.Date(2021, 3, 4, 5, 6, 7, 8, time.Local)
+		fs := []zapcore.Field{zap.Time("t", tm), zap.Timep("tp", &tm), zap.Any("ta", tm), zap.Times("ts", []time.Time{tm})}
+		time.Local = time.FixedZone("now-local", off+7200)
+		enc := zapcore.NewMapObjectEncoder()
+		for _, f := range fs {
+			f.AddTo(enc)
+		}
+		time.Local = old
+		for _, k := range []string{"t", "tp", "ta"} {
+			got, ok := enc.Fields[k].(time.Time)
+			if _, o := got.Zone(); !ok || !got.Equal(tm) || o != off {
+				t.Fatalf("zap time field %q built in zone %+d s reached the encoder as %v (a time-zone change)", k, off, enc.Fields[k])
+			}
 		}
 	}
 }
